@@ -427,6 +427,30 @@ func checkC20Closure(cx *Ctx, r *Report, cons, cl *ssa.Function) {
 				}
 			}
 		}
+		// a conditional step evaluates what it guards only after the condition returned true
+		if hasCondParam(cons) {
+			condTrue := false
+			for _, cp := range p.Conds {
+				if a, pos := nm.name(cp.Cond); a == "C:cond()" && pos == cp.Pol {
+					condTrue = true
+				}
+			}
+			condSeen := false
+			for _, in := range p.Instrs() {
+				if c, isCall := in.(*ssa.Call); isCall {
+					switch pn := nm.paramOfCallee(c); pn {
+					case "cond":
+						condSeen = true
+					case "", "errorFunc":
+					default:
+						if !condSeen || !condTrue {
+							okOnce = false
+							detail = "a conditional step evaluates " + pn + "() although its condition was not (yet) found true: the guarded check runs for requests the condition excludes"
+						}
+					}
+				}
+			}
+		}
 		if val && nErr != 1 {
 			okOnce = false
 			detail = fmt.Sprintf("a path reporting failure (return true) calls the error callback %d times", nErr)
@@ -698,4 +722,13 @@ func checkC20Loop(cx *Ctx, r *Report, cf *ssa.Function) {
 		}
 	}
 	r.Check(problem == "", "R-CHK-LOOP", key, w.FnPos(cf), "front-to-back loop over c.steps; returns true exactly at the first step that returns true; returns false only after the last", problem)
+}
+
+func hasCondParam(cons *ssa.Function) bool {
+	for _, p := range cons.Params {
+		if p.Name() == "cond" {
+			return true
+		}
+	}
+	return false
 }
